@@ -300,7 +300,8 @@ pub fn write_csv_par<T: Serialize + Sync>(
 
     // Empty case: create/truncate file, nothing to do.
     if n == 0 {
-        let _ = File::create(path).with_context(|| format!("create {}", path.display()))?;
+        let f = File::create(path).with_context(|| format!("create {}", path.display()))?;
+        auto_detect_writer(f, path)?.flush()?;
         return Ok(0);
     }
 
@@ -331,7 +332,8 @@ pub fn write_csv_par<T: Serialize + Sync>(
     // Concatenate buffers in deterministic order into the final file.
     buffers.sort_by_key(|(idx, _)| *idx);
 
-    let mut file = File::create(path).with_context(|| format!("create {}", path.display()))?;
+    let file = File::create(path).with_context(|| format!("create {}", path.display()))?;
+    let mut file = auto_detect_writer(file, path)?;
     for (_, buf) in buffers {
         file.write_all(&buf)?;
     }
